@@ -336,3 +336,116 @@ PROPS["C19"]["kinds"].append(dict(name="reservestress", gen=c19_stress_gen, orac
                                   nontrivial=lambda l, r: r.startswith("rounds="), timeout=600))
 PROPS["C19"]["rule"] += ("; reservestress: 16-128 goroutines released at once into the real prefetchCtl.reserve for one key, "
                          "thousands of rounds: exactly one winner per round (schedule search for the single-flight invariant)")
+
+
+# ---- kind prefetchfan: MANY distinct keys in the window at once, upstream stalled (round 2) ----
+# The boundary catalogue of N is the point: a hit path that hands the refresh to a bounded worker pool / a limited
+# errgroup / an unbuffered channel blocks exactly when N reaches the bound; 63/64/65 and 128 straddle the usual ones,
+# 300 and (thorough) 1023..1025, 2000 the rest.
+_FAN_N = (1, 2, 63, 64, 65, 128, 300)
+
+
+def c19_fan_gen(rng, tier):
+    base = []
+    for n in _FAN_N:
+        base.append(("slow", "u", n))
+    base += [("silent", "u", 64), ("silent", "t", 65), ("silent", "u", 128), ("silent", "t", 300),
+             ("slow", "t", 65), ("slow", "t", 300), ("slow", "u", 1025)]
+    for _ in range(2):
+        base.append((rng.choice(["slow", "silent"]), rng.choice("ut"), rng.randint(66, 400)))
+    if tier == "thorough":
+        for n in (3, 32, 33, 100, 127, 129, 255, 256, 257, 511, 512, 513, 1000, 1023, 1024, 2000):
+            base.append((rng.choice(["slow", "slow", "silent"]), rng.choice("utp"), n))
+        for _ in range(16):
+            base.append((rng.choice(["slow", "silent"]), rng.choice("utp"), int(10 ** rng.uniform(0, 3.2))))
+    out = []
+    for i, (mode, up, n) in enumerate(base):
+        tag = bytes(rng.choice(b"abcdefghijklmnopqrstuvwxyz0123456789") for _ in range(8))
+        if n <= 128:
+            pace = rng.choice([0, 0, 100, 500])      # all at once, or in quick succession
+        else:
+            pace = rng.choice([200, 300, 500])       # 300 hits within 60..150 ms
+        ls = "mixed" if (n > 128 or rng.random() < 0.7) else rng.choice(["udp", "tcp+gnet", "udp+tcp", "http-post+fasthttp-get"])
+        delay = 0 if mode == "silent" else 2500 + (n * pace) // 1000
+        out.append("f%d mode=%s up=%s n=%d pace=%d delay=%d ls=%s tag=%s stagger=%d" % (
+            i, mode, up, n, pace, delay, ls, gens.hx(tag), 120 * (i % 16)))
+    return out
+
+
+def c19_fan_oracle(line, res):
+    """independent of the model: what the property demands of the observed run"""
+    f = gens.fields(line)
+    r = gens.fields(res)
+    if r.get("timing") != "ok":
+        return None
+    n = f["n"]
+    full = "%s/%s" % (n, n)
+    if r.get("ctl") != full or r.get("ctl_up") != "0":
+        return "control: hits on entries with more than a quarter of the lifetime left: %s answered from the cache, %s upstream queries" % (
+            r.get("ctl"), r.get("ctl_up"))
+    if "ctl_infl" in r:
+        return "a key is in flight outside the window"
+    if r.get("late") != "0" or r.get("lost") != "0" or r.get("ans") != full:
+        return ("%s entries inside their last quarter, upstream stalled, one hit per entry: only %s answered from the cache "
+                "within 1 s; %s answered late, %s not at all (first such hit: #%s in send order, worst %s ms; %s refreshes "
+                "were in flight) - a cache hit waited for background refreshes" % (
+                    n, r.get("ans"), r.get("late"), r.get("lost"), r.get("first_bad"), r.get("worst_ms"), r.get("infl_mid")))
+    if r.get("up_max") != "1" and not (r.get("up_max") == "0" and n == "0"):
+        return "%s refresh queries for ONE entry while %s entries are being refreshed (at most one per key)" % (r.get("up_max"), n)
+    if int(r.get("infl_mid", "0")) > int(n):
+        return "in-flight set has %s keys for %s entries" % (r.get("infl_mid"), n)
+    if r.get("late2") != "0" or r.get("ans2") != full:
+        return "second hit per entry while %s refreshes are in flight: only %s answered from the cache within 1 s (%s late or lost)" % (
+            n, r.get("ans2"), r.get("late2"))
+    if r.get("up_max2") != "1":
+        return "%s refresh queries for one entry after a second hit on it (the first refresh is still in flight)" % r.get("up_max2")
+    if int(r.get("infl2", "0")) > int(n):
+        return "in-flight set has %s keys for %s entries" % (r.get("infl2"), n)
+    if f["mode"] == "slow":
+        if r.get("infl_end") != "0":
+            return "%s keys still in flight after every refresh was answered" % r.get("infl_end")
+        if r.get("after") != full or r.get("renewed") != full:
+            return "after %s successful refreshes only %s entries serve the new answer (%s with a renewed TTL)" % (
+                n, r.get("after"), r.get("renewed"))
+        if int(r.get("up_end", "0")) > int(n):
+            return "%s refresh queries for %s entries" % (r.get("up_end"), n)
+    else:
+        if r.get("infl_to") != "0":
+            return "%s keys still in flight after every refresh failed (done not called)" % r.get("infl_to")
+        if r.get("old") != full:
+            return "after %s failed refreshes only %s old entries are still served" % (n, r.get("old"))
+        if r.get("up3_max") != "1":
+            return "%s refresh queries for one entry after its failed refresh" % r.get("up3_max")
+        if r.get("infl_end") != "0":
+            return "%s keys still in flight after the second round of refreshes" % r.get("infl_end")
+        if r.get("after") != full or r.get("renewed") != full:
+            return "after the upstream recovered only %s entries serve the new answer (%s with a renewed TTL)" % (
+                r.get("after"), r.get("renewed"))
+    return None
+
+
+def c19_fan_compare(ir, mr):
+    if ir.startswith("timing=bad"):
+        return True
+    return ir == mr
+
+
+def c19_fan_classify(line, res):
+    f = gens.fields(line)
+    n = int(f.get("n", "0"))
+    b = "n=1" if n == 1 else "n<64" if n < 64 else "n=64" if n == 64 else "n=65..128" if n <= 128 else "n=129..1024" if n <= 1024 else "n>1024"
+    return "%s %s%s" % (f.get("mode", "?"), b, "" if res.startswith("timing=ok") else " timing-bad-skipped")
+
+
+PROPS["C19"]["kinds"].append(dict(name="prefetchfan", gen=c19_fan_gen, oracle=c19_fan_oracle, compare=c19_fan_compare,
+                                  classify=c19_fan_classify, nontrivial=lambda l, r: r.startswith("timing=ok"), timeout=300,
+                                  shards=3))
+PROPS["C19"]["rule"] += ("; prefetchfan: one real-clock scenario per case on a private in-process router: N distinct entries "
+                         "placed inside their last quarter (hook, real cacheKey/packCacheMsg/MemoryCache.Store), upstream "
+                         "silent or answering after 2.5 s, one hit per entry in quick succession and concurrently on the real "
+                         "listeners, N over the catalogue 1, 2, 63, 64, 65, 128, 300, 1025 + random; every hit answered from "
+                         "the cache within 1 s with N refreshes in flight, at most one refresh query per entry, then recovery")
+PROPS["C19"]["assumptions"].append(
+    "prefetchfan: a cache hit on loopback is answered within 1 s on this machine (checked by a control burst of the same "
+    "shape on entries outside the window; otherwise the case is skipped); a hit blocked behind a stalled refresh waits "
+    ">= 2.3 s (slow) / 6 s (silent)")
